@@ -19,7 +19,7 @@ FUNCTIONS = ["OrderedRingBuffer.update", "normalize_timestamp", "to_internal_ind
 SHIMS = ["buffer.round / buffer.int map proxy reals to proxy ints (round-half-even / truncation)", "list indexing/slicing with a proxy int realises the index by forking",
          "math.isnan dispatch on proxies"]
 ASSUMPTIONS = [
-    "list container (numpy container in the *-numpy instances), sampling period 1 s (and 200 ms / 300 ms / 70 ms instances), align_to = UNIX epoch; update timestamps are symbolic microseconds anywhere in [0, span] (on and off the slot grid, any order); "
+    "list container (numpy container in the *-numpy instances), sampling period 1 s (and 200 ms / 300 ms / 70 ms / 333333 us instances), align_to = UNIX epoch; update timestamps are symbolic microseconds anywhere in [0, span] (on and off the slot grid, any order); "
     "each update is valid or missing by a symbolic flag; values are distinct concrete floats (the property is about WHICH slot a value lands in)",
     "reference: executable map slot -> value with slot = round_half_even(t / period), window = [newest - capacity + 1, newest]",
     "datetime queries: start/end symbolic microseconds (unaligned, inverted, outside the window, closer than one period); index queries: each index None or in [-3, 3]",
@@ -264,6 +264,8 @@ def instances(tier):
         I("grid-cap3-k2-dtq-numpy", "make", (3, 2, 4, "dtq", False, True, 1_000_000, False, True), "numpy container, grid updates + symbolic datetime query", budget_s=200, **kw),
         I("grid-cap2-k2-idxq-numpy", "make", (2, 2, 3, "idxq", False, True, 1_000_000, False, True), "numpy container, grid updates + index query", budget_s=100, **kw),
         I("cap2-k2-state-300ms", "make", (2, 2, 4, "state", False, False, 300_000), "sampling period 300 ms, capacity 2, 2 symbolic updates", budget_s=200, **kw),
+        I("cap2-k2-state-333333us", "make", (2, 2, 4, "state", False, False, 333_333), "sampling period 333333 us (odd number of microseconds: half a period is not a timedelta), "
+          "2 symbolic updates (budgeted: the modulus makes the integer queries slow)", budget_s=150, exhaustive=False, **kw),
         I("grid-cap2-k2-idxq-300ms", "make", (2, 2, 4, "idxq", False, True, 300_000), "sampling period 300 ms, grid updates + index query", budget_s=200, **kw),
     ]
     if tier != "quick":
